@@ -24,6 +24,8 @@ func checkC20(r *core.Run) {
 	r.Rule("D3: no process-resident state (shared with C01/C03)")
 	r.Rule("G-rescan: verifySuperStorageNodes has no exit before its loop over all delegations of the validator")
 	ruleScanTotal(r)
+	r.Rule("T-shares-sub: the shares verifySuperStorageNodes hands to CheckDelegationShare for subtraction are non-zero only under sharesBeforeModified > current shares, or when the delegation is being removed")
+	ruleSharesToSub(r, "T-shares-sub", "node/keeper.Hooks.verifySuperStorageNodes")
 	r.Rule("G-share-ratio: CheckDelegationShare succeeds only if (delegation.Shares / (validator.DelegatorShares - sharesToSub)) >= ShareThreshold: numerator and denominator are both in SHARES of that validator (sharesToSub, the pending reduction passed by the unbond hooks, is an amount of shares)")
 	r.Assume(aDeps)
 	r.Assume(aCG)
